@@ -504,7 +504,13 @@ func oracleC05(x *exec, v *viols, pre, post *snap, rp *reply) {
 			continue
 		}
 		if d := resDiff(c.told, cc.Res); len(d) > 0 {
-			v.add("told-differs-from-cache", "told-differs-from-cache:"+evKind+":"+strings.Fields(d[0])[0], "after %s container %s: %s", rp.ev, c.id(), strings.Join(d, "; "))
+			sig := "told-differs-from-cache:" + evKind + ":" + strings.Fields(d[0])[0]
+			if rp.err != nil && evKind == "update" && len(cc.Pending) > 0 && x.scn.policy == polTA {
+				// the refused update released the container's old grant before failing (S11): what that did to the others is
+				// recorded, marked pending and delivered with the next reply. Without the pending mark it is lost for good.
+				sig += ":still-pending-after-refused-update"
+			}
+			v.add("told-differs-from-cache", sig, "after %s container %s: %s", rp.ev, c.id(), strings.Join(d, "; "))
 		}
 		if len(cc.Pending) > 0 {
 			sig := "change-left-pending:" + evKind + ":" + errS
@@ -942,15 +948,18 @@ func oracleC02(x *exec, v *viols, pre, post *snap, rp *reply) {
 		for id, cl := range classOf {
 			want[cl] = append(want[cl], id)
 		}
-		got := map[int]string{}
+		// every class a CPU is listed in (a CPU listed in two classes is wrong whichever of them is the expected one)
+		got := map[int][]string{}
 		for cl, ids := range post.CPUClass {
 			for _, id := range ids {
-				got[id] = cl
+				got[id] = append(got[id], cl)
 			}
 		}
 		for _, id := range avail.List() {
-			if g, ok := got[id]; !ok || g != classOf[id] {
-				v.add("cpu-class", "cpu-class:"+strings.Split(rp.ev, ":")[0], "after %s CPU %d carries class %q (assigned: %v), expected %q", rp.ev, id, g, ok, classOf[id])
+			g := got[id]
+			sort.Strings(g)
+			if len(g) != 1 || g[0] != classOf[id] {
+				v.add("cpu-class", "cpu-class:"+strings.Split(rp.ev, ":")[0], "after %s CPU %d carries class(es) %q, expected exactly %q", rp.ev, id, g, classOf[id])
 				break
 			}
 		}
